@@ -188,9 +188,8 @@ class file_store(base_store):
             f = self._getfname(k)
             s = os.stat(f)
             if s.st_size <= MAX_FILESIZE_IN_PACK:
-                with open(f, 'rb') as ifile:
-                    self.packed[k] = decode_from(ifile)
-                    to_remove.append(k)
+                self.packed[k] = self.load(k)
+                to_remove.append(k)
         self.resave_pack()
         for k in to_remove:
             os.unlink(self._getfname(k))
